@@ -7,6 +7,7 @@ package main
 
 import (
 	"fmt"
+	"go/constant"
 	"go/token"
 	"go/types"
 	"regexp"
@@ -779,6 +780,19 @@ func (ge *GuardEngine) guardsRec(fn *ssa.Function, env *Env, chain []string, ctx
 		g.Ctx = append(append([]string{}, ctx...), ge.condCtx(fi, b, env)...)
 		g.Sites = append(append([]Site{}, sites...), Site{fn, b, env})
 		out = append(out, g)
+		// "a != b" over small arrays rejects iff some element differs: one disjunct per element
+		if g.Op == "!=" {
+			if bo, ok := ifi.Cond.(*ssa.BinOp); ok {
+				if at, ok := bo.X.Type().Underlying().(*types.Array); ok && at.Len() > 0 && at.Len() <= 8 {
+					for k := 0; k < int(at.Len()); k++ {
+						eg := g
+						eg.Weak = true
+						eg.L, eg.R = ge.arrayElemAtom(bo.X, k, env), ge.arrayElemAtom(bo.Y, k, env)
+						out = append(out, eg)
+					}
+				}
+			}
+		}
 		// error-propagating / predicate calls: expand the callee
 		if !g.Weak {
 			if call := propagatingCall(ifi.Cond); call != nil {
@@ -1105,7 +1119,9 @@ func fieldStores(fn *ssa.Function, field string) []*ssa.Store {
 // operands are given: listed patterns; a successful type assertion whose value the operands use;
 // a failed type assertion on a value for which a successful assertion is legitimate (other cases
 // of the same type switch).
-func ctxAllowed(descs []string, allowed []*regexp.Regexp, operands []string) []bool {
+var nonEmptyRe = regexp.MustCompile(`^len\((.+)\) (?:!=|>) const:0$`)
+
+func ctxAllowed(descs []string, allowed []*regexp.Regexp, operands []string, perElem bool) []bool {
 	ok := make([]bool, len(descs))
 	posOK := map[string]bool{} // asserted expressions X with a legitimate positive assertion
 	assertX := func(d string) (string, bool, bool) {
@@ -1139,6 +1155,26 @@ func ctxAllowed(descs []string, allowed []*regexp.Regexp, operands []string) []b
 			}
 		}
 	}
+	// "len(X) is not zero" is implied by any legitimate context about an element X[*] (the obligation only
+	// exists for such an element), and by an operand naming X[*] when the site is evaluated once per element
+	// (perElem: it sits in a loop; an existence flag "phi(false|true|…)" tested after the loop does not count)
+	for i, d := range descs {
+		m := nonEmptyRe.FindStringSubmatch(d)
+		if ok[i] || m == nil {
+			continue
+		}
+		elem := m[1] + "[*]"
+		for _, o := range operands {
+			if perElem && strings.Contains(o, elem) && !strings.Contains(o, "phi(") {
+				ok[i] = true
+			}
+		}
+		for j, dj := range descs {
+			if j != i && ok[j] && strings.Contains(dj, elem) {
+				ok[i] = true
+			}
+		}
+	}
 	for i, d := range descs {
 		if x, pos, isAssert := assertX(d); isAssert && !pos {
 			if posOK[x] {
@@ -1169,7 +1205,13 @@ func (ge *GuardEngine) siteProblemsOpt(g Guard, allowed []*regexp.Regexp, loopEx
 		for _, e := range edges {
 			descs = append(descs, e.desc)
 		}
-		okv := ctxAllowed(descs, allowed, operands)
+		perElem := false
+		for _, s2 := range g.Sites {
+			if len(ge.info(s2.Fn).loopsOf[s2.Block]) > 0 {
+				perElem = true
+			}
+		}
+		okv := ctxAllowed(descs, allowed, operands, perElem)
 		legit := map[[2]int]bool{} // (block index, successor number) edges that legitimately bypass the site
 		var bad []string
 		for i, e := range edges {
@@ -1303,4 +1345,54 @@ func isBoolExtract(v ssa.Value) bool {
 	}
 	_, ok := v.(*ssa.Extract)
 	return ok
+}
+
+// arrayElemAtom names element k of an array value: for a local array written only through constant
+// indices (a composite literal) the single value stored there, otherwise "<array>[k]".
+func (ge *GuardEngine) arrayElemAtom(v ssa.Value, k int, env *Env) string {
+	fallback := fmt.Sprintf("%s[%d]", ge.pv.Atom(v, env), k)
+	ld, ok := v.(*ssa.UnOp)
+	if !ok || ld.Op != token.MUL {
+		return fallback
+	}
+	al, ok := ld.X.(*ssa.Alloc)
+	if !ok || al.Referrers() == nil {
+		return fallback
+	}
+	var val ssa.Value
+	n := 0
+	for _, ref := range *al.Referrers() {
+		switch r := ref.(type) {
+		case *ssa.IndexAddr:
+			kc, isConst := r.Index.(*ssa.Const)
+			if !isConst || kc.Value == nil {
+				return fallback // written or read through a computed index
+			}
+			idx, _ := constant.Int64Val(kc.Value)
+			if r.Referrers() == nil {
+				return fallback
+			}
+			for _, rr := range *r.Referrers() {
+				st, isStore := rr.(*ssa.Store)
+				if !isStore || st.Addr != ssa.Value(r) {
+					return fallback
+				}
+				if int(idx) == k {
+					val = st.Val
+					n++
+				}
+			}
+		case *ssa.UnOp:
+		case *ssa.DebugRef:
+		default:
+			return fallback
+		}
+	}
+	if n == 1 {
+		return ge.pv.Atom(val, env)
+	}
+	if n == 0 {
+		return "const:0"
+	}
+	return fallback
 }
